@@ -203,6 +203,14 @@ func checkC08(c *Ctx) {
 			{"args-are-values/constructor", "定义点：\n\t其横 = 0\n\t其纵 = 0\n如何新建点？\n\t输入甲、乙\n\t其横 = 甲\n\t其纵 = 乙\n令数 = 1\n令物 = （新建点：数、以数（自增：10））\n输出【物之横，物之纵】\n", `list[num(1),num(11)]`},
 			{"args-are-values/type-method", "定义箱：\n\t其记 = 0\n\t如何装？\n\t\t输入甲、乙\n\t\t输出【甲，乙】\n令数 = 1\n令物 = （新建箱）\n输出 以物（装：数、以数（自增：10））\n", `list[num(1),num(11)]`},
 			{"args-are-values/thrown-constructor", "定义错：\n\t其甲 = 0\n\t其乙 = 0\n如何新建错？\n\t输入子、丑\n\t其甲 = 子\n\t其乙 = 丑\n如何试？\n\t令数 = 5\n\t抛出错：数、以数（自增：1）！\n\n\t拦截错：\n\t\t输出【其甲，其乙】\n输出（试）\n", `list[num(5),num(6)]`},
+			// … and a number handed over is a value: what the callee does to its input in place stays
+			// in the callee, whichever position the argument has
+			{"args-are-values/only-argument-changed-by-callee", "如何改？\n\t输入数\n\t以数（自增：1）\n\t输出 数\n令甲 = 5\n令果 = （改：甲）\n输出【果，甲】\n", "list[num(6),num(5)]"},
+			{"args-are-values/last-of-two-changed-by-callee", "如何改？\n\t输入子、丑\n\t以子（自增：10）\n\t以丑（自增：10）\n\t输出 子 + 丑\n令甲 = 1\n令乙 = 2\n令果 = （改：甲、乙）\n输出【果，甲，乙】\n", "list[num(23),num(1),num(2)]"},
+			{"args-are-values/property-of-another-object", "定义户：\n\t其余额 = 100\n\t如何试算？\n\t\t输入数\n\t\t以数（自增：100）\n\t\t输出 数\n令甲 = （新建户）\n令乙 = （新建户）\n令果 = 以甲（试算：乙之余额）\n输出【果，甲之余额，乙之余额】\n", "list[num(200),num(100),num(100)]"},
+			{"args-are-values/recursion-counting-down-its-input", "如何数？\n\t输入层\n\t如果 层 <= 0：\n\t\t输出 0\n\t以层（自减：1）\n\t输出 1 + （数：层）\n令甲 = 4\n输出【（数：甲），甲】\n", "list[num(4),num(4)]"},
+			{"args-are-values/list-item-and-loop-variable", "如何改？\n\t输入数\n\t以数（自增：1）\n\t输出 数\n令列 = 【1，2】\n令和 = 0\n以项遍历列：\n\t和 = 和 + （改：项）\n输出【和，列，（改：列#1），列】\n", "list[num(5),list[num(1),num(2)],num(2),list[num(1),num(2)]]"},
+			{"args-are-values/constructor-and-throw", "定义错：\n\t其码 = 0\n如何新建错？\n\t输入码\n\t以码（自增：1）\n\t其码 = 码\n令数 = 7\n令物 = （新建错：数）\n如何试？\n\t抛出错：数！\n\n\t拦截错：\n\t\t输出 其码\n输出【物之码，（试），数】\n", "list[num(8),num(8),num(7)]"},
 			{"args-are-values/display", "令数 = 1\n（显示：数、{以数（自增：10）}、数）\n输出 数\n", `num(11)`},
 			// the call yields the value of the 输出 that was reached first, from inside any loop over any
 			// kind of collection, and nothing of the method runs afterwards
